@@ -74,6 +74,8 @@ def addLine (ci : Bool) (line0 : List Nat) : LineResult :=
   let line1 := trimLine line0
   if line1.isEmpty then .skip else
   let p := splitPrefix line1
+  -- a lone `!` (or `/`) carries no pattern: `if line.is_empty() { return Ok(self); }`
+  if p.2.2.isEmpty then .skip else
   let d := splitDirSlash p.2.2
   let actual := actualOf p.2.1 d.2
   match parse (giOpts ci) actual with
